@@ -67,7 +67,11 @@ def build_param(ps: dict) -> P.Parameter:
     else:
         arr = np.array(ps["vals"], dtype=np.float64).reshape(inner)
         dtype = DataType.REAL
-    if ps.get("const"):
+    if ps.get("frozen"):
+        # a non-learnable tensor with a random initialiser: its value exists only in the compiled tensor
+        from cirkit.symbolic.initializers import UniformInitializer
+        t = P.TensorParameter(*inner, initializer=UniformInitializer(0.25, 1.5), learnable=False)
+    elif ps.get("const"):
         t = P.ConstantParameter(*inner, value=arr)
     else:
         t = P.TensorParameter(*inner, initializer=ConstantTensorInitializer(arr), dtype=dtype)
